@@ -110,6 +110,10 @@ def fault_snippets(w):
     f['huge-value:pad'] = (['pad ' + huge], 'end', hn + ['pad'])
     f['huge-value:reserve'] = (['reserve ' + huge], 'end', hn + ['reserve'])
     f['huge-value:segment'] = (['segment ' + huge, ';'], 'end', hn + ['segment'])
+    f['huge-value:negative-pad'] = (['pad 0 - ' + huge], 'end', hn + ['pad', 'positive', 'negative'])
+    f['huge-value:pad-at-unaligned-huge-address'] = (['segment ' + huge + ' + w', 'pad 2'], 'end', hn + ['pad', 'segment'])
+    f['huge-value:negative-empty-segment-with-label'] = (['segment 0 - ' + huge, 'zz_neg:'], 'end', hn + ['memory', 'segment', 'negative'])
+    f['negative-empty-segment-with-label'] = (['segment 0 - 4*w', 'zz_neg:'], 'end', ['space', 'fit', 'range', 'memory', 'segment', 'negative'])
     f['huge-value:macro-arg'] = (['def zz_m p {', ';p', '}', 'zz_m ' + huge], 'end', hn + ['zz_m'])
     f['huge-value:const'] = (['zz_c = ' + huge, ';zz_c'], 'top', hn + ['zz_c'])
     # preprocessor-stage errors raised while other expansions are on the stack (the error reporter walks the stack):
